@@ -63,6 +63,13 @@ func (p *Plan2) Int(k string, def int) int {
 	}
 	return def
 }
+func (p *Plan2) Bool(k string, def bool) bool {
+	if v, ok := p.Params[k].(bool); ok {
+		return v
+	}
+	return def
+}
+
 func (p *Plan2) Str(k, def string) string {
 	if v, ok := p.Params[k].(string); ok {
 		return v
